@@ -58,3 +58,31 @@ Proof.
     apply lstep_some; cbn [guard proj]; [rewrite LT, E; reflexivity|]. eapply put_enabled; eauto.
   - exists (LTmDone w None). split; [reflexivity|]. apply lstep_some; cbn [guard proj]; [rewrite LT, E; reflexivity | exact I].
 Qed.
+
+(* what local.pop takes is resumed by the next action of the worker *)
+Theorem popped_coroutine_is_resumed_next P n l w c r l1 : LReach P n l -> w < n -> lq (base l) w = c :: r ->
+  lstep P l (LPop w) = Some l1 ->
+  wpc l1 w = PRes RRun /\ hand (base l1) w = [c] /\ ntake l1 c = S (ntake l c) /\
+  exists l2, lstep P l1 (LResume w) = Some l2 /\ In (FRun c) (stk (base l2) w) /\ wpc l2 w = PCo RRun.
+Proof.
+  intros R L E H. pose proof (tinv_reach _ _ _ R) as [I1 I2 I3 I4].
+  assert (R1 : LReach P n l1) by (eapply LRS; eauto).
+  pose proof (tinv_reach _ _ _ R1) as [J1 J2 J3 J4].
+  destruct (lstep_inv _ _ _ _ H) as (G & s' & -> & S). cbn [guard proj] in G, S. rewrite E in S.
+  apply andb_true_iff in G. destruct G as [G0 G1]. destruct (wpc l w) eqn:PC; try discriminate G1.
+  specialize (I4 w L). rewrite PC in I4. cbn in I4.
+  apply step_grab in S. destruct S as (_ & c' & A & HH & _ & SK & TP & _). cbn [getq] in A. rewrite E in A. inversion A; subst c'.
+  rewrite I4 in HH. cbn in HH.
+  assert (W1 : wpc (ctl P l (LPop w) s') w = PRes RRun).
+  { unfold ctl. rewrite E. unfold taken. lsimp. now rewrite upd_eq. }
+  assert (NT : ntake (ctl P l (LPop w) s') c = S (ntake l c)).
+  { unfold ctl. rewrite E. unfold taken, inc. lsimp. now rewrite upd_eq. }
+  rewrite base_ctl in *. split; [exact W1|]. split; [exact HH|]. split; [exact NT|].
+  assert (BI : base_idle s' w = true).
+  { apply base_idle_of; [apply J3; [exact L | rewrite W1; reflexivity] | apply J2, L]. }
+  destruct (handed_coroutine_resumable _ _ w c (lreach_base _ _ _ R1)) as (s2 & S2 & F2);
+    [rewrite base_ctl, HH; now left | rewrite base_ctl; exact BI|]. rewrite base_ctl in S2.
+  exists (ctl P (ctl P l (LPop w) s') (LResume w) s2). split.
+  - unfold lstep. cbn [guard proj]. rewrite base_ctl, W1, HH, J1. apply Nat.ltb_lt in L. rewrite L. cbn [andb is_nil negb]. rewrite S2. reflexivity.
+  - rewrite base_ctl. split; [exact F2|]. unfold ctl at 1. rewrite W1. lsimp. now rewrite upd_eq.
+Qed.
